@@ -328,6 +328,9 @@ func TestVfAppScan(t *testing.T) {
 		c.W = []int{100, 1000, 7}[k%3]
 		c.LatencyUS = []int{0, 400000, 2000}[k%3]
 		c.WriterUS = 0
+		// up to 2000 results are still queued when completion is signalled: "the exit delay at its default or larger" is
+		// taken at 3 s here so that draining them does not depend on the speed of this harness's recording writer
+		c.ExitDelay = 3 * time.Second
 		out.write(vfRunApp(c, seed+int64(runs)))
 		runs++
 	}
